@@ -681,6 +681,19 @@ func genCore(prop string, seed uint64, tier string, g genCfg) *Scenario {
 		}
 		body.Clients = append(body.Clients, cs)
 	}
+	if g.profile == "huge-terms" {
+		// millisecond timeouts at the top of the 16-bit range (64537-65535 ms: sums with them overflow 16 bits);
+		// a draw stream of its own
+		tm := ssched.Sub(seed, "topms")
+		for ci := range body.Clients {
+			for oi := range body.Clients[ci].Ops {
+				if o := &body.Clients[ci].Ops[oi]; o.Cmd == 1 && o.Timeout > 0 && tm.Intn(6) == 0 {
+					o.TFlag = (o.TFlag &^ tfMinute) | tfMs
+					o.Timeout = uint16(64537 + tm.Intn(999))
+				}
+			}
+		}
+	}
 	if g.pipelines || g.profile == "values-serial" {
 		// INCR operands of other lengths than 8 bytes (the server reads up to 8 little-endian bytes of whatever
 		// is there): a draw stream of its own, so that the requests generated above stay what they were
@@ -1242,6 +1255,43 @@ func genLongTable(prop string, seed uint64, tier string) *Scenario {
 	body.Clients = []ClientSpec{{Kind: "mem", StartMs: 50, Ops: ops}}
 	raw, _ := json.Marshal(body)
 	k := genKnobs(r)
+	return &Scenario{Knobs: k, Sched: genSched(r, seed), Body: raw, MaxSimS: 3000}
+}
+
+// genKeyReuse: keys that all share the one fast-key slot (so all but one live in the key map) are taken
+// with a value each, released or left to expire, and reclaimed; 15-40 s later a second client takes
+// 20-60 keys nobody has used: they are served by the key managers the first ones gave back, and must
+// start without a value (C17: the keys' values are gone).
+func genKeyReuse(prop string, seed uint64, tier string) *Scenario {
+	r := ssched.Sub(seed, "gen")
+	n1, n2 := 2+r.Intn(8), 20+r.Intn(40)
+	body := &CoreBody{NKeys: n1 + n2, NLids: 2, Profile: "key-reuse", Dbs: []int{0}}
+	uniq := 0
+	var a, b []OpSpec
+	for i := 0; i < n1; i++ {
+		uniq++
+		a = append(a, OpSpec{Cmd: 1, Key: i, Lid: 0, Count: 0, Expried: uint16(1 + r.Intn(3)), DelayMs: r.Intn(30), Wait: true,
+			Data: &DataSpec{Op: "set", Val: []byte(fmt.Sprintf("r%d", uniq))}})
+	}
+	for i := 0; i < n1; i++ {
+		if r.Intn(2) == 0 {
+			a = append(a, OpSpec{Cmd: 2, Key: i, Lid: 0, DelayMs: r.Intn(200), Wait: true})
+		}
+	}
+	for i := 0; i < n2; i++ {
+		o := OpSpec{Cmd: 1, Key: n1 + i, Lid: 1, Count: 0, Expried: 1, DelayMs: r.Intn(40), Wait: true}
+		if r.Intn(4) == 0 {
+			o.Expried = 0
+		}
+		b = append(b, o)
+	}
+	body.Clients = []ClientSpec{{Kind: "mem", StartMs: 50, Ops: a}, {Kind: "mem", StartMs: 15000 + r.Intn(25000), Ops: b}}
+	raw, _ := json.Marshal(body)
+	k := genKnobs(r)
+	k.DBFastKeyCount = 1
+	if r.Intn(3) == 0 {
+		k.DBFastKeyCount = 2
+	}
 	return &Scenario{Knobs: k, Sched: genSched(r, seed), Body: raw, MaxSimS: 3000}
 }
 
